@@ -193,31 +193,42 @@ func newModel(c *Case) (m *model, skip string) {
 	if m.n < 1 || m.n > maxN || m.k < 1 || m.k > maxK {
 		return nil, "out-of-bounds"
 	}
-	leaders := 0
-	seenStore := map[uint64]bool{}
+	// Shapes the statement does not speak about but a server can meet: they are not judged against the
+	// model; the caller still runs FitRegion on them for the clauses that need no model (no panic,
+	// every peer exactly once).
 	seenPeer := map[uint64]bool{}
 	for j := range c.Peers {
 		p := &c.Peers[j]
-		st := c.store(p.Store)
-		if st == nil || seenStore[p.Store] || seenPeer[p.ID] || p.ID == 0 {
-			return nil, "peer-without-store-or-duplicate"
+		if seenPeer[p.ID] || p.ID == 0 {
+			return nil, "malformed-duplicate-or-zero-peer-id"
 		}
-		seenStore[p.Store], seenPeer[p.ID] = true, true
-		m.st[j], m.learner[j] = st, p.Learner
+		seenPeer[p.ID] = true
+	}
+	for j := range c.Peers {
+		if c.Peers[j].Role != "" {
+			return nil, "joint-consensus-role" // IncomingVoter / DemotingVoter: voter or learner? undocumented
+		}
+	}
+	for j := range c.Peers {
+		if c.store(c.Peers[j].Store) == nil {
+			return nil, "peer-without-store" // does an unknown store satisfy an empty constraint list? undocumented
+		}
+	}
+	// Two peers on one store are two peers at the same place. A region without a leader (leader id 0 or
+	// not among the peers) simply has no peer that matches the leader role.
+	for j := range c.Peers {
+		p := &c.Peers[j]
+		m.st[j], m.learner[j] = c.store(p.Store), p.Learner
 		if p.ID == c.Leader {
 			m.leader[j] = true
-			leaders++
 			if p.Learner {
 				return nil, "leader-is-learner"
 			}
 		}
 	}
-	if leaders != 1 {
-		return nil, "no-leader"
-	}
 	for _, r := range c.Rules {
-		if r.Count < 1 {
-			return nil, "count-below-1"
+		if r.Count < 0 {
+			return nil, "count-negative" // rejected by the rule manager; "never more peers than count" is void
 		}
 	}
 	// Fixed by pd's documented conventions (mirrored here, computed independently):
